@@ -488,6 +488,9 @@ def i5_i6(prog: Program, chk: Check) -> None:
                     if side:
                         found[side] = (w, x)
     shape_ok = "l" in found and "r" in found
+    if not shape_ok:
+        raise AnalysisError("I5: the weights of the left / right site Liouvillian in the bond loop of "
+                            "get_nn_full_liouvillians were not found")
     bad = []
     pre = [st for st in u.node.body if st is not loop and st.lineno < loop.lineno]
     if shape_ok:
